@@ -174,8 +174,8 @@ def keyToBlockSlices (tb : TB α) (k : Key) (retainOrder : Bool) : Except Err (L
       match is.mapM (normPos · idx.length) with
       | .error e => .error e
       | .ok ps =>
-        -- `sorted(self._index[x] for x in key)`: pairs sort lexicographically = by column position
-        let ps' := if retainOrder then ps else sortNat ps
+        -- `sorted(set(self._index[x] for x in key))`: unique pairs, sorted lexicographically = by column position
+        let ps' := if retainOrder then ps else (sortNat ps).eraseDups
         fin (contiguousPairs (pick idx ps') none [])
 
 /-! ### `_slice_blocks` / `_extract` -/
